@@ -49,6 +49,7 @@ type Res struct {
 	Infra      []string       `json:"infra,omitempty"`
 	Bound      int            `json:"bound"`
 	Candidates int            `json:"candidates"`
+	MemRaces   int            `json:"mem_races"` // unordered conflicting plain accesses turned into backtrack points
 }
 
 func (r *Res) merge(o Out, fail string, sched []int) {
